@@ -161,7 +161,11 @@ int main(int argc, char** argv) {
 			for (size_t off = 0; off < n; off += (size_t)1 << 30) { size_t c = n - off < ((size_t)1 << 30) ? n - off : (size_t)1 << 30; rc2 |= blake2b_update(&S, big + off, c); }
 			rc2 |= blake2b_final(&S, d2, 32);
 			blake2b(d3, 32, big, extra, nullptr, 0);
-			Line l; l.str("e", "big").num("lenHigh", (long long)(n >> 32)).num("lenLow", (long long)extra).num("rc1", rc1).num("rc2", rc2).bytes("oneshot", d1, 32).bytes("streamed", d2, 32).bytes("truncated", d3, 32);
+			// the commitment of that input: Blake2b-256(input || hash) - against the streamed computation of the same concatenation
+			uint8_t hin[32], c1[32], c2[32]; for (int q = 0; q < 32; ++q) hin[q] = (uint8_t)(q * 7 + 1);
+			randomx_calculate_commitment(big, n, hin, c1);
+			{ blake2b_state T; blake2b_init(&T, 32); for (size_t off = 0; off < n; off += (size_t)1 << 30) { size_t c = n - off < ((size_t)1 << 30) ? n - off : (size_t)1 << 30; blake2b_update(&T, big + off, c); } blake2b_update(&T, hin, 32); blake2b_final(&T, c2, 32); }
+			Line l; l.str("e", "big").bytes("commit", c1, 32).bytes("commitStreamed", c2, 32).num("lenHigh", (long long)(n >> 32)).num("lenLow", (long long)extra).num("rc1", rc1).num("rc2", rc2).bytes("oneshot", d1, 32).bytes("streamed", d2, 32).bytes("truncated", d3, 32);
 			l.emit(out);
 			munmap(big, n);
 		}
